@@ -22,6 +22,7 @@ RULE = ("every alignment class x option values (rotation, allow_mirror, kernel c
         "that differs from the previous one; distinct = (class, dims, options, history shape)")
 ASSUMPTIONS = ["objects without a shadow entry (e.g. results of pseudoinverse) are not judged", "PWA retargets are kept fold-free"]
 DECIDING_TAPS = ["set_target_vs_fresh"]
+REPLAY_PATHS = ['menpo/transform/test']      # suite replay (thorough tier): the repository's own tests under these monitors
 SHARDS = {"quick": 8, "thorough": 16}
 
 
@@ -154,6 +155,10 @@ class GPAMonitor(taps.Monitor):
         for s, dg in zip(g.sources, st["d"]):
             if digest(s) != dg:
                 ctx.fail("gpa_changed_a_source", cls="GeneralizedProcrustesAnalysis", mech="digest")
+
+
+def replay_case_begin():
+    align.clear_shadow()
 
 
 def setup(ctx):
